@@ -66,12 +66,21 @@ type T5 struct {
 	N int    `a:"ge=1" b:"le=5|b-N"`
 }
 
+// T6 carries rules under the default tag name on every field but under tag a only on some: analysing it for one tag
+// name must not borrow from what is cached for the other.
+type T6 struct {
+	A string `valid:"required|v-A"`
+	B string `a:"required|a-B" valid:"to=1~2|v-B"`
+	F string `a:"to=1~2|a-F6"`
+}
+
 var values = []interface{}{
 	&T1{F: "abc", G: 5},
 	&T2{F: "", G: 5, N: &T1{F: "abc", G: 5}},
 	&T3{F: "", L: []T1{{F: "abcdef", G: 12}}, G: 5},
 	&RA{F: "abc", B: &RB{G: 5, A: &RA{F: "abcdefg"}, L: []*RA{nil, {F: "x", B: &RB{G: 5}}}}},
 	&T4{P: &T1{F: "abc", G: 5}, Q: &T5{K: "", N: 7}, F: "", Mail: "x"},
+	&T6{A: "", B: "", F: "abc"},
 }
 
 type call struct {
@@ -93,7 +102,11 @@ var overrideRM = map[string]string{"F": "eq=9|ovr-F"}
 func calls() []call {
 	var out []call
 	for ty := 0; ty < len(values); ty++ {
-		for _, tag := range []string{"a", "b"} {
+		tags := []string{"a", "b"}
+		if _, ok := values[ty].(*T6); ok {
+			tags = []string{"valid", "a"}
+		}
+		for _, tag := range tags {
 			for _, ov := range []bool{false, true} {
 				out = append(out, call{ty, tag, ov})
 			}
@@ -364,10 +377,74 @@ func run(c *runner.Ctx) {
 		}
 	}
 	if !persistent {
+		manyTagNames(c, d)
 		spuriousMisses(c, d, all, expect, 3)
 		lateRegistration(c, d)
 		sharedRuleMap(c, d)
 	}
+}
+
+// manyTagNames: one type validated under 300 distinct tag names (forwards, then backwards): each call is judged by the
+// tag name it asked for, however many names the process has seen.
+func manyTagNames(c *runner.Ctx, d *deleg) {
+	c.Space(c.Mode + ":many-tag-names")
+	const n = 300
+	var tag strings.Builder
+	for i := 0; i < n; i++ {
+		if i%7 == 0 {
+			fmt.Fprintf(&tag, `p%03d:"required|m%d" `, i, i)
+		} else if i%7 == 3 {
+			fmt.Fprintf(&tag, `p%03d:"to=1~2|m%d" `, i, i)
+		}
+	}
+	st := reflect.StructOf([]reflect.StructField{{Name: "A", Type: reflect.TypeOf(""), Tag: reflect.StructTag(tag.String())}, {Name: "B", Type: reflect.TypeOf(0), Tag: `p000:"ge=5|b0" p256:"le=1|b256" p299:"required|b299"`}})
+	for _, cf := range cfgs {
+		if !c.Take() {
+			continue
+		}
+		d.inner = cf.mk()
+		order := make([]int, 0, 2*n)
+		for i := 0; i < n; i++ {
+			order = append(order, i)
+		}
+		for i := n - 1; i >= 0; i-- {
+			order = append(order, i)
+		}
+		for pos, i := range order {
+			name := fmt.Sprintf("p%03d", i)
+			p := reflect.New(st)
+			p.Elem().Field(1).SetInt(3)
+			want := walk.Struct(p.Interface(), walk.Opts{Tag: name}).Error()
+			var err error
+			pan, msg, site := runner.Guard(func() { err = valid.ValidateStruct(p.Interface(), name) })
+			got := ""
+			if err != nil {
+				got = err.Error()
+			}
+			if pan {
+				c.Violation("panic@"+site, map[string]interface{}{"config": cf.name, "tag_name": name, "panic": msg})
+				break
+			}
+			if explainOnly(got) != explainOnly(want) {
+				c.Violation("many-tag-names/judged-by-another-tag-name", map[string]interface{}{"config": cf.name, "tag_name": name, "call_number": pos, "expected": want, "actual": got})
+				break
+			}
+		}
+		c.Done(true, 2*n)
+		c.Outcome("ok")
+	}
+}
+
+// explainOnly keeps the explanation parts (the type name of an unnamed struct is long and holds separators).
+func explainOnly(e string) string {
+	var out []string
+	for _, p := range strings.Split(e, "explain: ")[1:] {
+		if k := strings.Index(p, ";"); k >= 0 {
+			p = p[:k]
+		}
+		out = append(out, p)
+	}
+	return strings.Join(out, "|")
 }
 
 // sharedRuleMap: one rule-map object is passed to successive calls and edited in place between them (same address,
@@ -530,7 +607,7 @@ func main() {
 	runner.Main(runner.Config{
 		Property:  "C08",
 		Technique: "explicit enumeration of all call histories up to a depth x cache configurations x start states on the real code vs pure-function model (cross-configuration differential)",
-		Rule: "calls = 5 types (nested, time.Time fields, a pair of mutually recursive types, two sub-objects of different types in front of ruled fields) x tag names {a,b} (different rules per tag on the same fields; the value violates the a-rules on one field and the b-rules on another) x {tag rules, per-call override of the shared field}; " +
+		Rule: "calls = 6 types (one with rules under the default tag name on every field but under tag a only on some; nested, time.Time fields, a pair of mutually recursive types, two sub-objects of different types in front of ruled fields) x tag names {a,b} (different rules per tag on the same fields; the value violates the a-rules on one field and the b-rules on another) x {tag rules, per-call override of the shared field}; " +
 			"all sequences of length d (3 quick, 4 thorough) from 3 start states (cold, warmed under the other tag / with overrides, warmed then flushed by capacity+1 filler types) on 8 cache configurations switched in-process, plus, for the bounded LRUs of capacity 1,2,3,8, the start states churn-r (r = 1..2*capacity+3 evictions before the sequence, and 1024..1027 for the default-size LRU(512): every position of the LRU's internal map rebuild relative to the next d calls) " +
 			"and on the untouched package default and on the library's own LRU(0) / LRU(1) / LRU(2) handed to SetStructTypeCache directly (separate worker sets, one cache instance per process so sequences chain); and every depth-3 sequence on LRU(1), LRU(2), LRU(512), sync.Map with one (thorough: one or two) of its cache loads answered with a miss although the entry is present (the answer a concurrent eviction produces); one rule-map object edited in place between successive calls, and the history (validate, register a global function for a name the type uses, validate) on every configuration; every call compared with walk(type, tag, override, value); states = (configuration, per-type last tag) ; non-trivial = a type re-validated under the other tag",
 		Assumptions: []string{"walk model internal/walk", "the global cache is replaced through the public SetStructTypeCache only"},
